@@ -539,7 +539,9 @@ func c15Generate(tape *simrt.Tape, tier string, illegalGoAway bool) *c15Case {
 			s.Code = http2.ErrCodeRefusedStream
 		}
 		s.Status = []int{200, 200, 200, 200, 404, 503}[tape.Choose(6, "status")]
-		rct := []string{"application/grpc", "application/grpc+proto"}[tape.Choose(2, "rct")]
+		// (the last one: an answer at the HTTP level - a proxy's error page, a raw
+		// response - whose body is not enveloped, whatever the request was)
+		rct := []string{"application/grpc", "application/grpc+proto", "application/grpc", "application/grpc+proto", "text/plain; charset=utf-8"}[tape.Choose(5, "rct")]
 		s.RespFields = []c15Hdr{{":status", fmt.Sprint(s.Status)}, {"content-type", rct}}
 		if tape.Bool(1, 3, "respenc") {
 			s.RespFields = append(s.RespFields, c15Hdr{"grpc-encoding", "gzip"})
@@ -1521,6 +1523,17 @@ func c15MatchEvts(got, want []c15Evt, optional *c15Evt, lenient bool) bool {
 	return true
 }
 
+// c15PlainResponse: the response's content type is that of no enveloped protocol.
+func c15PlainResponse(hdr []c15Hdr) bool {
+	for _, h := range hdr {
+		if strings.EqualFold(h.Name, "content-type") {
+			ct := strings.ToLower(h.Value)
+			return !strings.HasPrefix(ct, "application/grpc") && !strings.HasPrefix(ct, "application/connect")
+		}
+	}
+	return false
+}
+
 // c15Compare checks one delivered trace against the expectation; "" = equal.
 func c15Compare(s *c15Stream, e *c15Exp, d c15Delivery, end *c15End) (class, detail string) {
 	tr := d.tr
@@ -1605,6 +1618,13 @@ func c15CompareRest(s *c15Stream, e *c15Exp, tr Trace, end *c15End) (class, deta
 		return "c15/request-messages", fmt.Sprintf("request messages %s, want %s (%d body bytes seen before the stream ended)", c15FmtEvts(reqData), c15FmtEvts(want), len(e.reqBody))
 	}
 	want, opt = c15Envelopes(e.respBody)
+	if c15PlainResponse(e.respHdr) {
+		// not a stream protocol: the body is one run of bytes, reported once
+		want, opt = nil, nil
+		if len(e.respBody) > 0 {
+			want = []c15Evt{{Len: uint64(len(e.respBody))}}
+		}
+	}
 	if !c15MatchEvts(respData, want, opt, e.final != "end") {
 		return "c15/response-messages", fmt.Sprintf("response messages %s, want %s (%d body bytes seen before the stream ended)", c15FmtEvts(respData), c15FmtEvts(want), len(e.respBody))
 	}
